@@ -128,6 +128,12 @@ var c05Families = []c05Family{
 	{name: "revsuffix-valid-ends", pat: `[A-Z][a-z.]+\.txt`, hay: c05PrefixRep("A", "a.txt"), apis: []string{"Match", "FindIndex"}, small: true},
 	{name: "revinner-valid-ends", pat: `A[a-z.]*foo[a-z.]*`, hay: c05PrefixRep("A", "foo."), apis: []string{"Match", "FindIndex"}},
 	{name: "multiline-valid-ends", pat: `(?m)^[A-Z][a-z.]+\.php`, hay: c05PrefixRep("A", "a.php"), apis: []string{"Match", "FindIndex"}},
+	// every candidate has a valid prefix (long reverse scan ending in a match start) and an
+	// almost matching suffix (long anchored forward scan that fails): the anti-quadratic guard must
+	// also advance when the PREFIX succeeded
+	{name: "revinner-prefix-ok-suffix-fails", pat: `[0-9]+[a-z ]*connection[a-z ]*[0-9]`, hay: c05PrefixRep("1 ", "lost connection "), apis: []string{"Match", "FindIndex"}},
+	{name: "revinner-prefix-ok-suffix-fails-2", pat: `[A-Z][a-z.]*foo[a-z.]*[0-9]`, hay: c05PrefixRep("A", "foo."), apis: []string{"Match", "FindIndex"}},
+	{name: "revsuffix-prefix-ok-tail-fails", pat: `[0-9]+[a-z ]*\.txt[a-z ]*[0-9]`, hay: c05PrefixRep("1 ", "a.txt "), apis: []string{"Match", "FindIndex"}},
 	// reverse inner
 	{name: "revinner-a.*foo.*b", pat: `a.*foo.*b`, hay: c05Rep("foo"), apis: []string{"Match", "FindIndex"}},
 	{name: "revinner-x.*foo.*y-lines", pat: `x.*foo.*y`, hay: c05Rep("xfoo\n"), apis: []string{"Match", "FindIndex"}},
